@@ -70,62 +70,62 @@ func (rc *RunCtx) H(format string, a ...any) {
 
 // ReplayFile is what a violation is reported as.
 type ReplayFile struct {
-	Harness  string          `json:"harness"`
-	Property string          `json:"property"`
-	Seed     uint64          `json:"seed"`
-	Run      int             `json:"run"`
-	Tier     string          `json:"tier"`
-	Plan     json.RawMessage `json:"plan"`
-	Config   simrt.Config    `json:"config"`
-	Choices  []int           `json:"choices"`
-	Class    string          `json:"class"`
-	Witness  string          `json:"witness"`
-	Detail   string          `json:"detail,omitempty"`
-	Trace    []simrt.Choice  `json:"trace,omitempty"`
-	Minimised bool           `json:"minimised"`
-	Crash    bool            `json:"crash,omitempty"` // the worker process died on this run
+	Harness   string          `json:"harness"`
+	Property  string          `json:"property"`
+	Seed      uint64          `json:"seed"`
+	Run       int             `json:"run"`
+	Tier      string          `json:"tier"`
+	Plan      json.RawMessage `json:"plan"`
+	Config    simrt.Config    `json:"config"`
+	Choices   []int           `json:"choices"`
+	Class     string          `json:"class"`
+	Witness   string          `json:"witness"`
+	Detail    string          `json:"detail,omitempty"`
+	Trace     []simrt.Choice  `json:"trace,omitempty"`
+	Minimised bool            `json:"minimised"`
+	Crash     bool            `json:"crash,omitempty"` // the worker process died on this run
 }
 
 // Summary is written by a batch worker.
 type Summary struct {
-	Property   string            `json:"property"`
-	Runs       int               `json:"runs"`
-	Steps      int64             `json:"steps"`
-	SimTimeS   float64           `json:"sim_time_s"`
-	WallS      float64           `json:"wall_s"`
-	Strategies map[string]int    `json:"strategies"`
-	Faults     map[string]int    `json:"faults"`
-	Probes     map[string]int    `json:"probes"`
-	HistHashes []uint64          `json:"hist_hashes"`
-	SchedHashes []uint64         `json:"sched_hashes"`
-	Nontrivial []uint64          `json:"nontrivial_hashes"`
-	Stalls     int               `json:"stalls_inconclusive"`
-	StepCaps   int               `json:"step_caps"`
-	Leaked     int               `json:"leaked_goroutines"`
-	Foreign    int               `json:"foreign_goroutines"`
-	SelMulti   int               `json:"select_multi_ready"`
-	LockCont   int               `json:"lock_contended"`
-	Inconcl    map[string]int    `json:"inconclusive"`
-	Failures   []ReplayFile      `json:"failures"`
-	FailCounts map[string]int    `json:"fail_counts"`
-	Samples    []json.RawMessage `json:"samples"`
-	Progress   int               `json:"progress"` // index of the run in flight (for crash attribution)
+	Property    string            `json:"property"`
+	Runs        int               `json:"runs"`
+	Steps       int64             `json:"steps"`
+	SimTimeS    float64           `json:"sim_time_s"`
+	WallS       float64           `json:"wall_s"`
+	Strategies  map[string]int    `json:"strategies"`
+	Faults      map[string]int    `json:"faults"`
+	Probes      map[string]int    `json:"probes"`
+	HistHashes  []uint64          `json:"hist_hashes"`
+	SchedHashes []uint64          `json:"sched_hashes"`
+	Nontrivial  []uint64          `json:"nontrivial_hashes"`
+	Stalls      int               `json:"stalls_inconclusive"`
+	StepCaps    int               `json:"step_caps"`
+	Leaked      int               `json:"leaked_goroutines"`
+	Foreign     int               `json:"foreign_goroutines"`
+	SelMulti    int               `json:"select_multi_ready"`
+	LockCont    int               `json:"lock_contended"`
+	Inconcl     map[string]int    `json:"inconclusive"`
+	Failures    []ReplayFile      `json:"failures"`
+	FailCounts  map[string]int    `json:"fail_counts"`
+	Samples     []json.RawMessage `json:"samples"`
+	Progress    int               `json:"progress"` // index of the run in flight (for crash attribution)
 }
 
 var (
-	fMode  = flag.String("sim.mode", "batch", "batch | replay | minimise")
-	fProp  = flag.String("sim.prop", "", "property id")
-	fSeed  = flag.Uint64("sim.seed", 1, "VERIF_SEED")
-	fFrom  = flag.Int("sim.from", 0, "first run index")
-	fTo    = flag.Int("sim.to", 1, "one past last run index")
-	fTier  = flag.String("sim.tier", "quick", "tier")
-	fOut   = flag.String("sim.out", "", "output file")
-	fFile  = flag.String("sim.file", "", "replay file")
-	fMaxF  = flag.Int("sim.maxfail", 24, "keep at most this many distinct failures per batch")
-	fWall  = flag.Duration("sim.wall", 0, "wall-clock budget for the batch (0 = none)")
-	fTrace = flag.Bool("sim.trace", false, "keep labels in traces")
+	fMode   = flag.String("sim.mode", "batch", "batch | replay | minimise")
+	fProp   = flag.String("sim.prop", "", "property id")
+	fSeed   = flag.Uint64("sim.seed", 1, "VERIF_SEED")
+	fFrom   = flag.Int("sim.from", 0, "first run index")
+	fTo     = flag.Int("sim.to", 1, "one past last run index")
+	fTier   = flag.String("sim.tier", "quick", "tier")
+	fOut    = flag.String("sim.out", "", "output file")
+	fFile   = flag.String("sim.file", "", "replay file")
+	fMaxF   = flag.Int("sim.maxfail", 24, "keep at most this many distinct failures per batch")
+	fWall   = flag.Duration("sim.wall", 0, "wall-clock budget for the batch (0 = none)")
+	fTrace  = flag.Bool("sim.trace", false, "keep labels in traces")
 	fPerRun = flag.String("sim.perrun", "", "write one line per run: index, history hash, schedule hash, class")
-	fRunTO = flag.Duration("sim.runtimeout", 60*time.Second, "real-time watchdog per run")
+	fRunTO  = flag.Duration("sim.runtimeout", 60*time.Second, "real-time watchdog per run")
 )
 
 func hash64(parts ...string) uint64 {
